@@ -6,6 +6,8 @@
    (incl. the nested _add_collateral_input) as the code is NOW (after fix commits 192bddd "a UTxO is chosen as
    collateral at most once", 5b2796b "automatic collateral selection respects max_collateral_inputs", 7babc21 "the
    collateral amount covers the fee buffer and is rounded up", 57d1ac6 "user-supplied collateral is validated").
+   (b') the gate of the method — which scripts the builder knows (all_scripts / scripts / build_witness_set classes /
+   _reference_scripts) — as a function of the builder's script tables, so that every way of supplying a script is covered.
    Model only — proofs are in CollateralProofs.v. *)
 From Coq Require Import NArith ZArith Ascii String List Bool Lia.
 From PyC Require Import Base Cbor Dict Value.
@@ -205,6 +207,56 @@ Section Model.
       let colls' := dedup_ids colls [] in
       (colls', finish colls').
 End Model.
+
+(* ====================================================================== *)
+(* (b') MODEL of the gate: which scripts the builder knows                  *)
+(* ====================================================================== *)
+(* A script as the gate sees it: its hash (dict key in all_scripts / scripts) and its class
+   (isinstance NativeScript / PlutusV1Script or raw bytes / PlutusV2Script / PlutusV3Script). *)
+Inductive skind := SNative | SV1 | SV2 | SV3.
+Record sref := mkS { s_hash : bytes; s_kind : skind }.
+Definition skind_eqb (a b : skind) : bool :=
+  match a, b with SNative, SNative | SV1, SV1 | SV2, SV2 | SV3, SV3 => true | _, _ => false end.
+Definition is_plutus (s : sref) : bool := negb (skind_eqb (s_kind s) SNative).
+
+(* the tables of the builder that hold scripts, however the script reached them (witness object, separate
+   reference UTxO, the spent UTxO's own output.script, a UTxO discovered at the script address) *)
+Record sstate := mkSS {
+  ss_native : list sref;   (* self.native_scripts or [] *)
+  ss_inputs : list sref;   (* self._inputs_to_scripts.values() *)
+  ss_mint   : list sref;   (* [s for s, _ in self._minting_script_to_redeemers] *)
+  ss_wdrl   : list sref;   (* [s for s, _ in self._withdrawal_script_to_redeemers] *)
+  ss_cert   : list sref;   (* [s for s, _ in self._certificate_script_to_redeemers] *)
+  ss_refs   : list sref    (* self._reference_scripts: scripts living on a reference UTxO OTHER than the spent one *)
+}.
+
+(* the scripts the transaction executes for some purpose *)
+Definition purposes (ss : sstate) : list sref := ss_inputs ss ++ ss_mint ss ++ ss_wdrl ss ++ ss_cert ss.
+
+(* TransactionBuilder.all_scripts: scripts[script_hash(s)] = s over the five tables in this order; dict semantics *)
+Definition all_scripts (ss : sstate) : dict sref :=
+  fold_left (fun d s => dset d (s_hash s) s) (ss_native ss ++ purposes ss) [].
+
+(* TransactionBuilder.scripts: for s in self._reference_scripts: if hash in scripts: scripts.pop(hash) *)
+Definition wit_scripts (ss : sstate) : list sref :=
+  map snd (fold_left (fun d s => dpop d (s_hash s)) (ss_refs ss) (all_scripts ss)).
+
+(* build_witness_set(remove_dup_script=False) sorts self.scripts into native_scripts / plutus_v1_script /
+   plutus_v2_script / plutus_v3_script; a field is None (falsy) iff its class is absent.
+   _build_fake_witness_set only adds vkey witnesses. *)
+Definition wit_has (k : skind) (ss : sstate) : bool := existsb (fun s => skind_eqb (s_kind s) k) (wit_scripts ss).
+
+(* the gate of _set_collateral_return, negated:
+     if (not witnesses.plutus_v1_script and not witnesses.plutus_v2_script and not witnesses.plutus_v3_script
+         and not self._reference_scripts): return *)
+Definition needs_collateral (ss : sstate) : bool :=
+  negb (negb (wit_has SV1 ss) && negb (wit_has SV2 ss) && negb (wit_has SV3 ss)
+        && match ss_refs ss with [] => true | _ :: _ => false end).
+
+(* the whole method as a function of the builder's script tables *)
+Definition set_collateral_return_ss (minl : value -> Z) (P : cparams) (ss : sstate) (has_addr : bool)
+           (explicit inputs potentials at_addr : list cand) : list cand * outcome :=
+  set_collateral_return minl P (needs_collateral ss) has_addr explicit inputs potentials at_addr.
 
 (* _build_tx_body: collateral = NonEmptyOrderedSet([c.input for c in self.collaterals]) — first occurrence kept *)
 Definition body_collateral (colls : list cand) : list cand := dedup_ids colls [].
